@@ -487,3 +487,13 @@ def mc(ctx):
 
 
 RULES.append(mc)
+
+
+@rule("P11", doc="the variant enumeration behind the strong shape is the full product of the children's groups; its only shortcut is 'every child's group is trivial' (C04.M3b/M3c)")
+def p11(ctx):
+    from . import c04
+    c04.m3b(ctx)
+    c04.m3c(ctx)
+
+
+RULES.append(p11)
